@@ -361,5 +361,43 @@ def r11_8(ctx):
     return r
 
 
+def r11_9(ctx):
+    """the three datagrams of the client's second flight (ClientKeyExchange in epoch 0, ChangeCipherSpec, Finished in
+    epoch 1) can be lost or reordered independently. The ChangeCipherSpec handler advances read_epoch as soon as it
+    arrives, so an epoch-0 handshake record must stay acceptable afterwards: try_decrypt_record hands every
+    epoch-0 record to the dispatcher (which filters by content type, R03.1) and may not reject by epoch alone -
+    otherwise a retransmitted ClientKeyExchange is discarded for ever and neither side can finish."""
+    r = RuleResult("R11.9", "K4", "epoch-0 (handshake) records are never rejected by the record opener")
+    fn = D + "try_decrypt_record"
+    b = ctx.body(fn)
+    r.scope.append(fn)
+
+    def epoch0(term, meaning, *_):
+        t, neg = term, False
+        if t[0] == "un" and t[1] == "Not":
+            t, neg = t[2], True
+        if t[0] == "bin" and t[1] in ("Eq", "Ne") and mir.has_field(t[2], "epoch") and mir.int_value(t[3]) == 0 and isinstance(meaning, bool):
+            return ((meaning != neg) is (t[1] == "Eq"))
+        return False
+    g = core.guard_edges(b, epoch0)
+    if not g:
+        raise core.CheckerError("R11.9: `record.epoch == 0` test not found in try_decrypt_record")
+    errs = core.err_return_blocks(b)
+    bad = None
+    for (sb, tgt) in g:
+        for eb in errs:
+            p = b.path_to([tgt], eb, cut_edges=[e for e in b.back_edges()])
+            if p is not None:
+                bad = (eb, p)
+    if bad is None:
+        r.ok({"epoch == 0 edge": b.where(g[0][0]), "returns": "Ok(payload) on every path"})
+    else:
+        r.violate(fn, "epoch0:rejected", b.where(bad[0]),
+                  "an epoch-0 record can be rejected by try_decrypt_record: a ClientKeyExchange that arrives after the "
+                  "ChangeCipherSpec (loss + retransmission, or reordering) is then never accepted and the handshake cannot converge",
+                  core.describe_path(b, bad[1]))
+    return r
+
+
 def run(ctx):
-    return [r11_1(ctx), r11_2(ctx), r11_3(ctx), r11_4(ctx), r11_5(ctx), r11_6(ctx), r11_7(ctx), r11_8(ctx)]
+    return [r11_1(ctx), r11_2(ctx), r11_3(ctx), r11_4(ctx), r11_5(ctx), r11_6(ctx), r11_7(ctx), r11_8(ctx), r11_9(ctx)]
